@@ -160,6 +160,7 @@ def run(ctx: Ctx) -> None:
     ctx.floor("C04.R4", wrapper_rule(ctx, "C04.R4"), 9, "nested wrapper forms")
     # the recursive set that the full and position-independent deciders consult, end to end on the model grammars (C05.R6)
     from .grammodel import analysis_rule
-    ctx.rule("C04.R5", "the recursive set the full / position-independent deciders consult is exact on the model grammars (both modes)")
-    ctx.floor("C04.R5", analysis_rule(ctx, "C04.R5", ("recursive",)), 16, "model grammar x mode")
+    ctx.rule("C04.R5", "the tables creation chooses from are exact on the model grammars (both modes): the productions of every symbol (a vanished production "
+                       "makes every program containing it unreachable) and the recursive set the full / position-independent deciders consult")
+    ctx.floor("C04.R5", analysis_rule(ctx, "C04.R5", ("productions", "recursive")), 32, "model grammar x mode x table")
     ctx.assumptions += ["exhaustive enumeration of decision sequences is not performed (not this family)"]
